@@ -128,4 +128,20 @@ C16_NewDot == MapsOver(<<C16_KA, C16_KD, C16_KH>>, C16_DotLeaves) \ {SD("dict", 
 C16_DocsDot  == SetToSeq(C16_BaseDot) \o SetToSeq(C16_NewDot)
 C16_RangeDot == << <<1, Cardinality(C16_BaseDot)>>, <<Cardinality(C16_BaseDot) + 1, Cardinality(C16_BaseDot) + Cardinality(C16_NewDot)>> >>
 
+\* targets that are ELEMENTS OF A LIST (`q: !prev a[1]`): the element is taken out, the elements behind it move up;
+\* several operators in one document act one after the other on what is left (F25: the library handed on the LAST
+\* element of the list instead of the removed one)
+C16_KC == SKey("c")
+C16_LL(xs) == SD("list", NoVal, [i \in 1..Len(xs) |-> <<IKey(i - 1), xs[i]>>])
+C16_BaseLE == {SD("dict", NoVal, <<<<C16_KA, l>>, <<C16_KB, C16_List(<<"3">>)>>>>) :
+                l \in {C16_LL(<<C16_List(<<"1">>), C16_List(<<"2">>), C16_List(<<"3">>)>>),
+                       C16_LL(<<C16_L("1"), C16_List(<<"2">>), C16_L("3")>>),
+                       C16_LL(<<C16_List(<<"1">>), C16_List(<<"2">>)>>),
+                       C16_LL(<<C16_LL(<<C16_List(<<"1">>), C16_List(<<"2">>)>>), C16_List(<<"3">>)>>)}}
+C16_LELeaves == {C16_L("2"), C16_Prev(<<C16_KA, IKey(0)>>), C16_Prev(<<C16_KA, IKey(1)>>), C16_Prev(<<C16_KA, IKey(2)>>),
+                 C16_Prev(<<C16_KA, IKey(0), IKey(1)>>), C16_Prev(<<C16_KB, IKey(0)>>), C16_Prev(<<C16_KA>>)}
+C16_NewLE == MapsOver(<<C16_KA, C16_KB, C16_KC>>, C16_LELeaves) \ {SD("dict", NoVal, <<>>)}
+C16_DocsLE  == SetToSeq(C16_BaseLE) \o SetToSeq(C16_NewLE)
+C16_RangeLE == << <<1, Cardinality(C16_BaseLE)>>, <<Cardinality(C16_BaseLE) + 1, Cardinality(C16_BaseLE) + Cardinality(C16_NewLE)>> >>
+
 =============================================================================
